@@ -13,7 +13,7 @@ MANIFEST = dict(
     technique="Lean 4 proof over a parametric model + constants regenerated from source + exhaustive differential correspondence run under virtual time",
     design="5/C03",
 )
-GEN = ["Versions"]
+GEN = ["Versions", "VersionLib"]
 THEOREMS = [
     "c03_translated",
     "c03_proposed_spec",
@@ -29,6 +29,7 @@ THEOREMS = [
     "c03_handed_only_on_success",
     "c03_refusing_writer_never_success",
     "c03_sequence_each_call_fresh",
+    "c03_helpers_are_aliases",
     "c03_default_list",
 ]
 RULE = (
@@ -624,5 +625,38 @@ class ClientSequence(ClientInit):
                     yield dict(case, steps=st[:i] + [{k: v for k, v in s_.items() if k != f}] + st[i + 1:])
 
 
+class HelperAliases(Suite):
+    """The one-line helpers next to send_initialize and the legacy batching wrapper against the functions they name (supplementary:
+    a difference is recorded in the evidence notes, it is not an obligation of the property)."""
+
+    name = "helper-aliases"
+
+    def cases(self, ctx, budget):
+        self._ctx = ctx
+        pool = V.version_pool(V.HOSTILE_TEXT[:18])
+        return [{"op": "consts"}] + [{"op": "one", "v": v} for v in pool]
+
+    def impl_batch(self, cases):
+        return V.run_versionlib(cases)
+
+    def model_line(self, case):
+        return dict(case, m="versionlib")
+
+    def compare(self, case, o, m):
+        if case["op"] == "consts":
+            bad = o["alias_all"] != m["all"] or o["alias_latest"] != m["latest"]
+        else:
+            bad = (o["alias_supported"] != m["supported"] or o["alias_valid"] != m["valid"] or o["alias_batching"] != o["batching"]
+                   or not o["alias_batching_warned"])
+        if bad:
+            self._ctx.dist["supplementary-divergence/" + self.name] += 1
+            if len(self._ctx.notes) < 10:
+                self._ctx.notes.append(f"supplementary divergence ({self.name}): input {canon(case)[:200]} real {canon(o)[:400]} model {canon(m)[:300]}")
+        return None
+
+    def kind(self, case, o):
+        return "helper-aliases/" + case["op"]
+
+
 def suites():
-    return [ClientInit(), SlowWriter(), ClientSequence(), BatchingGuard()]
+    return [ClientInit(), SlowWriter(), ClientSequence(), BatchingGuard(), HelperAliases()]
